@@ -279,12 +279,35 @@ theorem headersEv_inv (c : Conn) (id : Nat) (es : Bool) (k : Kind) (h : CInv c) 
             have h' : CInv { c with maxId := id } := h
             exact upd_step { c with maxId := id } id _ (by simp [SEv.noPanicFrame]) h'
 
+theorem headersKindEv_inv (c : Conn) (id : Nat) (es : Bool) (k : Kind) (h : CInv c) :
+    CInv (headersKindEv c id es k).1 ∧ (headersKindEv c id es k).2.isPanic = false := by
+  unfold headersKindEv
+  split
+  · split
+    · exact connErr_inv c 1 true h
+    · exact upd_step c id _ (by simp [SEv.noPanicFrame]) h
+  · rename_i L
+    split
+    · exact ⟨h, rfl⟩
+    · obtain ⟨a, b⟩ := headersEv_inv c id es (.conn L) h
+      simp only []
+      split
+      · exact upd_step _ id _ (by simp [SEv.noPanicFrame]) a
+      · exact ⟨a, b⟩
+  · exact headersEv_inv c id es k h
+
 theorem cstepCore_inv (c : Conn) (e : Ev) (hp : e.isP = false) (h : CInv c) :
     CInv (cstepCore c e).1 ∧ (cstepCore c e).2.isPanic = false := by
   cases e with
   | P id => cases hp
-  | H id es k => exact headersEv_inv c id es k h
+  | H id es k => exact headersKindEv_inv c id es k h
   | K id es => exact headersEv_inv c id es .ok h
+  | Z id =>
+    simp only [cstepCore]
+    split
+    · exact connErr_inv c 1 true h
+    · exact connErr_inv c 1 false h
+  | T id => exact upd_step c id _ (by simp [SEv.noPanicFrame]) h
   | D id n es pad =>
     simp only [cstepCore]
     split
@@ -476,18 +499,21 @@ theorem cstep_inv (c : Conn) (e : Ev) (hp : e.isP = false) (h : CInv c) :
   unfold cstep
   split
   · exact ⟨h, rfl⟩
-  · obtain ⟨a, b⟩ := cstepCore_inv c e hp h
-    simp only []
-    split
-    · exact ⟨a, b⟩
-    · obtain ⟨d1, d2⟩ := drain_inv 1000 (cstepCore c e).1 a
-      rw [d2]
+  · split
+    · exact ⟨h, rfl⟩
+    · obtain ⟨a, b⟩ := cstepCore_inv c e hp h
       simp only []
       split
-      · exact ⟨d1, handlerOutcome_np _ _⟩
-      · exact ⟨d1, handlerOutcome_np _ _⟩
-      · exact ⟨d1, handlerOutcome_np _ _⟩
-      · exact ⟨d1, b⟩
+      · exact ⟨a, b⟩
+      · obtain ⟨d1, d2⟩ := drain_inv 1000 (cstepCore c e).1 a
+        rw [d2]
+        simp only []
+        split
+        · exact ⟨d1, handlerOutcome_np _ _⟩
+        · exact ⟨d1, handlerOutcome_np _ _⟩
+        · exact ⟨d1, handlerOutcome_np _ _⟩
+        · exact ⟨d1, handlerOutcome_np _ _⟩
+        · exact ⟨d1, b⟩
 
 theorem runEvs_no_panic (c : Conn) (evs : List Ev) (acc : List Out)
     (hp : ∀ e ∈ evs, e.isP = false) (h : CInv c) (hacc : ∀ o ∈ acc, o.isPanic = false) :
